@@ -561,6 +561,45 @@ func init() {
 			if r.Intn(2) == 0 {
 				start = genDoc(r, o)
 			}
+			if idx%16 == 13 {
+				// AddContainer / AddList at a list position that already holds an (equal, empty) container or list: the builder that
+				// comes back is the node now in the document — what is written through it is in the document
+				k := c03Keys[r.Intn(4)]
+				pos := fmt.Sprintf("%s[%d]", k, r.Intn(3))
+				asList := r.Intn(2) == 0
+				var second dom.Node
+				return c03History(r, map[string]any{}, 3+r.Intn(8), func(step int, d dom.ContainerBuilder, ref map[string]any, fail *[]string) (c03Step, bool) {
+					switch step {
+					case 0, 1:
+						var got dom.Node
+						if asList {
+							got = d.AddList(pos)
+							padd(ref, parseComp(pos), []any{})
+						} else {
+							got = d.AddContainer(pos)
+							padd(ref, parseComp(pos), map[string]any{})
+						}
+						if d.Child(pos) != got {
+							*fail = append(*fail, "AddContainer/AddList at "+pos+" did not return the node now at that position")
+						}
+						second = got
+						if asList {
+							return c03Step{"AddList(" + pos + ")", "OAddList " + gStr(pos)}, true
+						}
+						return c03Step{"AddContainer(" + pos + ")", "OAddContainer " + gStr(pos)}, true
+					case 2:
+						if asList {
+							second.(dom.ListBuilder).Append(dom.LeafNode("through-the-returned-builder"))
+							paddAt(ref, parsePPath(pos+"[0]"), "through-the-returned-builder")
+							return c03Step{"returned list .Append(..)", "OAddValueAt " + gStr(pos+"[0]") + " " + gNode("through-the-returned-builder")}, true
+						}
+						second.(dom.ContainerBuilder).AddValue("x", dom.LeafNode("through-the-returned-builder"))
+						paddAt(ref, parsePPath(pos+".x"), "through-the-returned-builder")
+						return c03Step{"returned container .AddValue(x, ..)", "OAddValueAt " + gStr(pos+".x") + " " + gNode("through-the-returned-builder")}, true
+					}
+					return c03Step1(r, d, ref, fail)
+				})
+			}
 			if idx%16 == 5 {
 				// consecutive writes into ONE directory with the directory (or an ancestor of it) taken away in between, through
 				// the root or through the builder of a node on the way: the second write creates the directory anew
